@@ -114,6 +114,8 @@ pub enum Ev
     /// syscall family: callee body, and value returned to the caller.
     SysBody { key: u8, n: u32, input: u32, chg: bool },
     SysBodyEnd { key: u8, n: u32 },
+    /// a deferred buffer of a callee other than `Commands` was applied: 0 = `ParallelCommands`, 1 = a custom `Deferred<T>`
+    SysPar { key: u8, n: u32, which: u8 },
     SysRet { uid: u32, out: Option<u32> },
     FrameBegin { sys: u8, frame: u32 },
     FrameEnd { sys: u8, frame: u32 },
